@@ -237,6 +237,14 @@ class Verifier(Interp):
         fn_label = c.short
         self.spec_extra = {}
         stats = dict(paths=0, exits=0)
+        nr = c.options.get("no_recursion")
+        if nr:
+            # options["no_recursion"] = label | dict(label=, receivers={"self.attach": "relpath:Class"}): the obligation
+            # <carrier>/safety/<label> "no cycle of the static call graph is reachable from this carrier" (pyvc/callgraph.py), computed
+            # from the module as it is now; emitted first, so an Unsupported construct later in the body does not lose it
+            from . import callgraph
+
+            callgraph.obligation(self, c, nr if isinstance(nr, str) else nr["label"], None if isinstance(nr, str) else nr.get("receivers"))
         if c.options.get("refines"):
             return self.verify_refinement(c, node, sha, globs, owner)
 
